@@ -46,8 +46,9 @@ pub fn sr_rr_spaces(tier: Tier, seed: u64) -> Vec<CfgSpace> {
     let w24 = u24_walk();
     let mut v = Vec::new();
 
-    // (1) k-deviation product over the scalar fields and the seven fields of one distinguished block
-    let k = tier.pick(2, 3);
+    // (1) k-deviation product over the scalar fields and the seven fields of one distinguished block.
+    // quick: k<=2 over 12 shapes; thorough: k<=2 over 30 shapes, and k<=3 over 4 shapes (k<=3 over all 30 would be
+    // 4.3e9 configurations - measured at 13 minutes per check on an idle machine, for no new pairwise interaction)
     let dims: Vec<u64> = vec![
         w32.len() as u64, // 0 ssrc
         w64.len() as u64, // 1 ntp
@@ -62,47 +63,60 @@ pub fn sr_rr_spaces(tier: Tier, seed: u64) -> Vec<CfgSpace> {
         w32.len() as u64, // 10 blk.lsr
         w32.len() as u64, // 11 blk.dlsr
     ];
-    let dev = Dev::new(&dims, k);
     // shapes: (number of blocks, index of the distinguished block, padding, is_sr)
-    let mut shapes: Vec<(usize, usize, u8, bool)> = Vec::new();
-    for &sr in &[true, false] {
-        for &(n, d) in tier.pick(&[(1usize, 0usize), (3, 1), (31, 30)][..], &[(1, 0), (2, 0), (3, 1), (31, 0), (31, 30)][..]) {
-            for &pad in tier.pick(&[0u8, 8][..], &[0u8, 4, 252][..]) {
-                shapes.push((n, d, pad, sr));
+    let shapes_of = |nd: &[(usize, usize)], pads: &[u8]| {
+        let mut shapes: Vec<(usize, usize, u8, bool)> = Vec::new();
+        for &sr in &[true, false] {
+            for &(n, d) in nd {
+                for &pad in pads {
+                    shapes.push((n, d, pad, sr));
+                }
             }
+        }
+        shapes
+    };
+    let mut plans: Vec<(usize, Vec<(usize, usize, u8, bool)>)> = Vec::new();
+    match tier {
+        Tier::Quick => plans.push((2, shapes_of(&[(1, 0), (3, 1), (31, 30)], &[0, 8]))),
+        Tier::Thorough => {
+            plans.push((2, shapes_of(&[(1, 0), (2, 0), (3, 1), (31, 0), (31, 30)], &[0, 4, 252])));
+            plans.push((3, shapes_of(&[(3, 1)], &[0, 8])));
         }
     }
-    let nshapes = shapes.len() as u64;
-    let devlen = dev.len();
-    let (w32a, w64a, w24a) = (w32.clone(), w64.clone(), w24.clone());
-    v.push(CfgSpace::new(&format!("sr-rr-fields-k{}", k), devlen * nshapes, move |idx| {
-        let (n, d, pad, sr) = shapes[(idx % nshapes) as usize];
-        let c = dev.decode(idx / nshapes);
-        let g32 = |f: usize, dflt: u32| c[f].map(|i| w32a[i as usize]).unwrap_or(dflt);
-        let mut blocks: Vec<Rb> = (0..n).map(|i| sentinel_rb(i, salt)).collect();
-        let b = &mut blocks[d];
-        b.ssrc = g32(5, b.ssrc);
-        b.fraction = c[6].map(|i| i as u8).unwrap_or(b.fraction);
-        b.cum = c[7].map(|i| w24a[i as usize]).unwrap_or(b.cum);
-        b.ext_seq = g32(8, b.ext_seq);
-        b.jitter = g32(9, b.jitter);
-        b.lsr = g32(10, b.lsr);
-        b.dlsr = g32(11, b.dlsr);
-        let ssrc = g32(0, 0x0A0B_0C0D ^ salt);
-        if sr {
-            Pkt::Sr {
-                ssrc,
-                ntp: c[1].map(|i| w64a[i as usize]).unwrap_or(0x1112_1314_1516_1718),
-                rtp: g32(2, 0x2122_2324),
-                pc: g32(3, 0x3132_3334),
-                oc: g32(4, 0x4142_4344),
-                blocks,
-                pad,
+    for (k, shapes) in plans {
+        let dev = Dev::new(&dims, k);
+        let nshapes = shapes.len() as u64;
+        let devlen = dev.len();
+        let (w32a, w64a, w24a) = (w32.clone(), w64.clone(), w24.clone());
+        v.push(CfgSpace::new(&format!("sr-rr-fields-k{}", k), devlen * nshapes, move |idx| {
+            let (n, d, pad, sr) = shapes[(idx % nshapes) as usize];
+            let c = dev.decode(idx / nshapes);
+            let g32 = |f: usize, dflt: u32| c[f].map(|i| w32a[i as usize]).unwrap_or(dflt);
+            let mut blocks: Vec<Rb> = (0..n).map(|i| sentinel_rb(i, salt)).collect();
+            let b = &mut blocks[d];
+            b.ssrc = g32(5, b.ssrc);
+            b.fraction = c[6].map(|i| i as u8).unwrap_or(b.fraction);
+            b.cum = c[7].map(|i| w24a[i as usize]).unwrap_or(b.cum);
+            b.ext_seq = g32(8, b.ext_seq);
+            b.jitter = g32(9, b.jitter);
+            b.lsr = g32(10, b.lsr);
+            b.dlsr = g32(11, b.dlsr);
+            let ssrc = g32(0, 0x0A0B_0C0D ^ salt);
+            if sr {
+                Pkt::Sr {
+                    ssrc,
+                    ntp: c[1].map(|i| w64a[i as usize]).unwrap_or(0x1112_1314_1516_1718),
+                    rtp: g32(2, 0x2122_2324),
+                    pc: g32(3, 0x3132_3334),
+                    oc: g32(4, 0x4142_4344),
+                    blocks,
+                    pad,
+                }
+            } else {
+                Pkt::Rr { ssrc, blocks, pad }
             }
-        } else {
-            Pkt::Rr { ssrc, blocks, pad }
-        }
-    }));
+        }));
+    }
 
     // (2) every block count x every legal padding
     let pads = pad_all();
